@@ -167,9 +167,23 @@ def run_symbolic(chk, spec):
 	from ..values import Sym
 	n, form, opname = spec["n"], spec["form"], spec["opname"]
 	op = BIN_OPS[opname]
-	xs = [Sym(f"x{i}") for i in range(n)]
-	ys = [Sym(f"y{i}") if spec["other"] == "sym" else (i + 2) for i in range(n)]
-	k = Sym("k") if spec["other"] == "sym" else 3
+	if spec["other"] == "symx":
+		# operands whose == builds an expression instead of answering (every such expression is truthy): they are values like any other,
+		# and only `is None` - never `== None` - may declare a cell missing
+		class SymX(Sym):
+			def __eq__(self, other):
+				return SymX(f"({Sym._t(self)}=={Sym._t(other)})")
+			def __ne__(self, other):
+				return SymX(f"({Sym._t(self)}!={Sym._t(other)})")
+			__hash__ = Sym.__hash__
+			def __bool__(self):
+				return True
+		mk = SymX
+	else:
+		mk = Sym
+	xs = [mk(f"x{i}") for i in range(n)]
+	ys = [mk(f"y{i}") if spec["other"] in ("sym", "symx") else (i + 2) for i in range(n)]
+	k = mk("k") if spec["other"] in ("sym", "symx") else 3
 	v = Vector(list(xs))
 	forms = {
 		"vv": (lambda: op(v, Vector(list(ys))), lambda: [op(a, b) for a, b in zip(xs, ys)]),
@@ -187,7 +201,8 @@ def run_symbolic(chk, spec):
 		chk.fail("serif computes what Python defines", f"arith/raises-where-python-defines/symbolic/{opname}/{form}/{type(o.exc).__name__}", f"{spec!r}: {o!r}; python {exp!r}")
 		return
 	got = list(o.value._underlying) if isinstance(o.value, Vector) else None
-	if got != exp:
+	txt = lambda xs_: None if xs_ is None else [getattr(x, "text", x) for x in xs_]
+	if txt(got) != txt(exp):
 		chk.fail("element i is exactly what Python computes for the i-th operands in written order", f"arith/operand-order/{opname}/{form}", f"{spec!r}: serif {got!r}, python {exp!r}")
 
 def run_table_columnwise(chk, spec):
@@ -294,11 +309,18 @@ def run_call_write_call(chk, spec):
 	D = [date(2020, 1, 1) + timedelta(days=7 * i) for i in range(12)]
 	kind = spec["kind"]
 	n = spec["n"]
-	pool_ = {"date": D, "int": list(range(3, 40, 3)), "str": ["ab", "Cd", "e f", "zz", "Q", "mn"], "float": [0.5, 1.5, -2.0, 3.25, 8.0, 1e3]}[kind]
+	P61 = 2 ** 61 - 1
+	from fractions import Fraction
+	pool_ = {"int-twins": [-1, -2, 0, P61, 5, 5 + P61, -1 - P61, 2 * P61], "fraction-twins": [Fraction(-1), Fraction(-2), Fraction(1, 3), Fraction(1, 3) + P61, Fraction(0), Fraction(P61)], "float-twins": [0.0, -0.0, 2.0, float(2 + P61 * 4), -1.0, -2.0],
+		"date": D, "int": list(range(3, 40, 3)), "str": ["ab", "Cd", "e f", "zz", "Q", "mn"], "float": [0.5, 1.5, -2.0, 3.25, 8.0, 1e3]}[kind]
 	vals = [rng.choice(pool_) for _ in range(n)]
 	v = Vector(list(vals))
 	ops = {"date": {"+7": (lambda x: x + 7, lambda e: e + timedelta(days=7)), "+intvec": (lambda x: x + Vector([1] * n), lambda e: e + timedelta(days=1)), "year": (lambda x: x.year, lambda e: e.year), "isoformat": (lambda x: x.isoformat(), lambda e: e.isoformat()),
 			"+timedelta": (lambda x: x + timedelta(days=2), lambda e: e + timedelta(days=2))},
+		"int-twins": {"real": (lambda x: x.real, lambda e: e.real), "numerator": (lambda x: x.numerator, lambda e: e.numerator), "denominator": (lambda x: x.denominator, lambda e: e.denominator), "imag": (lambda x: x.imag, lambda e: e.imag),
+			"bit_length": (lambda x: x.bit_length(), lambda e: e.bit_length()), "-v": (lambda x: -x, lambda e: -e)},
+		"fraction-twins": {"numerator": (lambda x: x.numerator, lambda e: e.numerator), "denominator": (lambda x: x.denominator, lambda e: e.denominator), "*2": (lambda x: x * 2, lambda e: e * 2)},
+		"float-twins": {"real": (lambda x: x.real, lambda e: e.real), "hex": (lambda x: x.hex(), lambda e: e.hex()), "-v": (lambda x: -x, lambda e: -e)},
 		"int": {"*2": (lambda x: x * 2, lambda e: e * 2), "bit_length": (lambda x: x.bit_length(), lambda e: e.bit_length()), "2-v": (lambda x: 2 - x, lambda e: 2 - e), "-v": (lambda x: -x, lambda e: -e)},
 		"str": {"upper": (lambda x: x.upper(), lambda e: e.upper()), "+s": (lambda x: x + "!", lambda e: e + "!"), "*2": (lambda x: x * 2, lambda e: e * 2), "zfill": (lambda x: x.zfill(4), lambda e: e.zfill(4))},
 		"float": {"hex": (lambda x: x.hex(), lambda e: e.hex()), "/2": (lambda x: x / 2, lambda e: e / 2), "is_integer": (lambda x: x.is_integer(), lambda e: e.is_integer())}}[kind]
@@ -601,7 +623,56 @@ def run_helper(chk, spec):
 			f"Vector({short(vals, 120)}).{name}({sep!r}): serif {short(got, 160)} vs documented {short(exp, 160)}: {d}")
 
 
-RUNNERS = {"call_write_call": run_call_write_call, "row_method": run_row_method, "str_format_sequence": run_str_format_sequence, "table_unary": run_table_unary, "table_columnwise": run_table_columnwise, "unsized": run_unsized, "symbolic": run_symbolic, "identity": run_identity, "row_arith": run_row_arith, "helper": run_helper, "arith": run_arith, "table_arith": run_table_arith, "method": run_method, "date_days": run_date_days, "recompute": recompute.runner("C05")}
+def run_namesake_broadcast(chk, spec):
+	"""whether a broadcast attribute is a method or a property is a fact about the CLASS of the cells: a vector of some other class that merely carries the
+	same name (a user class called 'date' whose year is a method, an 'int' whose bit_length is a property) does not change what the built-in kind answers afterwards"""
+	kind, order = spec["kind"], spec["order"]
+	if kind == "date":
+		ns = type("date", (), {"year": lambda self: 1999, "isoformat": property(lambda self: "prop")})
+		real = [date(2020, 1, 31), None, date(2021, 2, 28)]
+		probes = [("year", None, [2020, None, 2021]), ("isoformat", (), ["2020-01-31", None, "2021-02-28"])]
+	elif kind == "int":
+		ns = type("int", (), {"bit_length": property(lambda self: 7), "real": lambda self: 0})
+		real = [5, None, 255]
+		probes = [("bit_length", (), [3, None, 8]), ("real", None, [5, None, 255])]
+	else:
+		ns = type("str", (), {"upper": property(lambda self: "P"), "lower": property(lambda self: "p")})
+		real = ["ab", None, "Cd"]
+		probes = [("upper", (), ["AB", None, "CD"]), ("lower", (), ["ab", None, "cd"])]
+	def touch_namesake():
+		w = Vector([ns(), ns()], dtype=object) if spec["typed"] == "object" else Vector([ns(), ns()])
+		for attr, args, _ in probes:
+			o = call(getattr, w, attr)
+			if o.ok and args is not None:
+				call(lambda: o.value())
+	def ask():
+		out = []
+		v = Vector(list(real))
+		for attr, args, exp in probes:
+			o = call(getattr, v, attr)
+			if o.ok and args is not None:
+				o = call(lambda: o.value(*args))
+			out.append((attr, o, exp))
+		return out
+	if order == "namesake-first":
+		touch_namesake()
+		res = ask()
+	else:
+		ask()
+		touch_namesake()
+		res = ask()
+	chk.judged("method", ("namesake-broadcast", kind, order, spec["typed"]))
+	for attr, o, exp in res:
+		if not o.ok:
+			chk.fail("element i of the result is the method applied to element i", f"method/namesake-class-changes-broadcast/{kind}.{attr}/raises", f"{spec!r}: {attr} on a real {kind} vector raised {o!r} after a vector of a class merely NAMED {kind} was used")
+			return
+		got = list(o.value._underlying) if isinstance(o.value, Vector) else o.value
+		if got != exp:
+			chk.fail("element i of the result is the method applied to element i", f"method/namesake-class-changes-broadcast/{kind}.{attr}/wrong", f"{spec!r}: {attr} on {real!r} gave {short(got, 120)}, expected {exp!r}")
+			return
+
+
+RUNNERS = {"namesake_broadcast": run_namesake_broadcast, "call_write_call": run_call_write_call, "row_method": run_row_method, "str_format_sequence": run_str_format_sequence, "table_unary": run_table_unary, "table_columnwise": run_table_columnwise, "unsized": run_unsized, "symbolic": run_symbolic, "identity": run_identity, "row_arith": run_row_arith, "helper": run_helper, "arith": run_arith, "table_arith": run_table_arith, "method": run_method, "date_days": run_date_days, "recompute": recompute.runner("C05")}
 
 PAIRS = [("int", "int"), ("int", "float"), ("float", "int"), ("bool", "int"), ("int", "complex"), ("float", "float"), ("str", "str"),
 	("str", "int"), ("date", "timedelta"), ("datetime", "timedelta"), ("timedelta", "timedelta"), ("timedelta", "int"), ("list", "list"),
@@ -654,7 +725,11 @@ def run(chk):
 	rng = chk.rng
 	for spec in product_specs(chk):
 		chk.case("arith", spec, "arith-" + spec["form"])
-	for kind, opnames in (("date", ["+7", "+intvec", "year", "isoformat", "+timedelta"]), ("int", ["*2", "bit_length", "2-v", "-v"]), ("str", ["upper", "+s", "*2", "zfill"]), ("float", ["hex", "/2", "is_integer"])):
+	for kind in ("date", "int", "str"):
+		for order in ("namesake-first", "real-first"):
+			for typed in ("inferred", "object"):
+				chk.case("namesake_broadcast", {"kind": kind, "order": order, "typed": typed}, "method-namesake")
+	for kind, opnames in (("int-twins", ["real", "numerator", "denominator", "imag", "bit_length", "-v"]), ("fraction-twins", ["numerator", "denominator", "*2"]), ("float-twins", ["real", "hex", "-v"]), ("date", ["+7", "+intvec", "year", "isoformat", "+timedelta"]), ("int", ["*2", "bit_length", "2-v", "-v"]), ("str", ["upper", "+s", "*2", "zfill"]), ("float", ["hex", "/2", "is_integer"])):
 		for opn in opnames:
 			for writes in (1, 2, 2, 3, 4):
 				for n in (1, 3, 6):
@@ -687,7 +762,7 @@ def run(chk):
 					chk.case("unsized", {"opname": opname, "form": form, "reflected": reflected, "values": [10, 20, None, 40][:n], "m": m}, "arith-unsized")
 	for opname in BIN_OPS:
 		for form in ("vv", "vs", "sv", "vl", "lv", "tv"):
-			for other in ("sym", "number"):
+			for other in ("sym", "number", "symx"):
 				for n in (1, 3):
 					chk.case("symbolic", {"opname": opname, "form": form, "other": other, "n": n}, "arith-value")
 	# explicit length mismatches for every operand form
@@ -802,7 +877,17 @@ def run(chk):
 			vals = common.apply_none(rng, [rng.choice([date(2020, 2, 10), date(2021, 2, 1), date(2021, 12, 31), date(2020, 1, 31), date(1999, 4, 30)]) for _ in range(size)], npat)
 			if not all(x is None for x in vals):
 				chk.case("helper", {"name": "eomonth", "values": vals}, "method-helper")
-	# dates + days
+	# dates + days: a day-count vector of another length is refused, whichever side is longer
+	for n, m in ((4, 2), (4, 6), (4, 1), (1, 3), (2, 3), (3, 2), (40, 39), (1, 2)):
+		for dnone in (False, True):
+			for knone in (False, True):
+				vals = [date(2020, 1, 1) + timedelta(days=31 * i) for i in range(n)]
+				other = [i % 5 for i in range(m)]
+				if dnone and n > 1:
+					vals[1] = None
+				if knone and m > 1:
+					other[1] = None
+				chk.case("date_days", {"values": vals, "other": other, "form": "intvec"}, "date-days-length")
 	for _ in range(120 if chk.quick() else 600):
 		n = rng.choice([1, 2, 3, 40])
 		vals = common.apply_none(rng, [rng.choice(METHOD_VALUES["date"]) for _ in range(n)], rng.choice(["none", "first", "last", "low"]))
